@@ -329,6 +329,7 @@ func checkC20(c *core.Ctx) error {
 		}
 	}
 	checkSliceBounds(c)
+	checkRawSubslices(c)
 	checkOptionSwitches(c)
 	checkOptionSpreading(c)
 	checkADGuards(c)
@@ -859,3 +860,102 @@ func checkDimensionGuards(c *core.Ctx) {
 }
 
 var dimUndecided = map[string]int{}
+
+// checkRawSubslices (C20.R3): an accessor that hands out a sub-slice of the receiver's raw storage (ConstRow of an
+// untransposed matrix, ConstCol of a transposed one) has no per-element bounds check; its start offset therefore has to
+// come from index() applied to the accessor's own argument (index() panics outside the view), or an explicit range test
+// of that argument that panics has to dominate the slice expression. Computing the offset from the header fields gives
+// the same address for valid arguments and silently reads the parent's storage for invalid ones.
+func checkRawSubslices(c *core.Ctx) {
+	pkg := c.Root
+	info := pkg.TypesInfo
+	n := 0
+	core.EachFunc(pkg, func(_ *ast.File, fd *ast.FuncDecl) {
+		if fd.Recv == nil || len(fd.Recv.List) == 0 || len(fd.Recv.List[0].Names) == 0 {
+			return
+		}
+		T := core.RecvTypeName(fd)
+		if !strings.HasPrefix(T, "Dense") || !strings.HasSuffix(T, "Matrix") {
+			return
+		}
+		recv := info.Defs[fd.Recv.List[0].Names[0]]
+		var params []types.Object
+		for _, f := range fd.Type.Params.List {
+			for _, nm := range f.Names {
+				if o := info.Defs[nm]; o != nil {
+					if b, ok := o.Type().Underlying().(*types.Basic); ok && b.Info()&types.IsInteger != 0 {
+						params = append(params, o)
+					}
+				}
+			}
+		}
+		if len(params) == 0 {
+			return
+		}
+		var cf *core.FuncCFG
+		ast.Inspect(fd.Body, func(x ast.Node) bool {
+			se, ok := x.(*ast.SliceExpr)
+			if !ok {
+				return true
+			}
+			sel, ok := ast.Unparen(se.X).(*ast.SelectorExpr)
+			if !ok || sel.Sel.Name != "values" {
+				return true
+			}
+			if id, ok := ast.Unparen(sel.X).(*ast.Ident); !ok || info.Uses[id] != recv {
+				return true
+			}
+			n++
+			if cf == nil {
+				cf = core.NewFuncCFG(fd.Body, info)
+			}
+			cons := c.FuncName(pkg, fd)
+			// a dominating call recv.index(..param..), or a dominating panicking range test of a parameter
+			guarded := false
+			ast.Inspect(fd.Body, func(y ast.Node) bool {
+				switch v := y.(type) {
+				case *ast.CallExpr:
+					s, ok := ast.Unparen(v.Fun).(*ast.SelectorExpr)
+					if !ok || s.Sel.Name != "index" {
+						return true
+					}
+					if id, ok := ast.Unparen(s.X).(*ast.Ident); !ok || info.Uses[id] != recv {
+						return true
+					}
+					usesParam := false
+					for _, a := range v.Args {
+						ast.Inspect(a, func(z ast.Node) bool {
+							if id, ok := z.(*ast.Ident); ok {
+								for _, p := range params {
+									if info.Uses[id] == p {
+										usesParam = true
+									}
+								}
+							}
+							return true
+						})
+					}
+					if usesParam && v.Pos() < se.Pos() && cf.NodeDominates(v.Pos(), se.Pos()) {
+						guarded = true
+					}
+				case *ast.IfStmt:
+					if blockPanics(info, v.Body) && v.Pos() < se.Pos() {
+						s := exprStr(v.Cond)
+						for _, p := range params {
+							if strings.Contains(s, p.Name()+">=") || strings.Contains(s, p.Name()+" >=") {
+								if cf.NodeDominates(v.Cond.Pos(), se.Pos()) {
+									guarded = true
+								}
+							}
+						}
+					}
+				}
+				return true
+			})
+			c.Check(guarded, "C20.R3", cons, "raw storage sub-slice starts at a bounds-checked index", se.Pos(),
+				"a sub-slice of the raw storage is returned whose start is not obtained from index() of the accessor's argument (nor preceded by a range test that panics): an out-of-range row/column of a sliced view silently yields the parent's elements")
+			return true
+		})
+	})
+	c.Analysed["raw_storage_subslices"] = n
+}
